@@ -644,8 +644,16 @@ func (p *Parser) parseStmt(allowDeclaration bool) (stmt IStmt) {
 			}
 		}
 	}
-	if !p.prevLT && p.tt == SemicolonToken {
-		p.next()
+	if p.tt == SemicolonToken {
+		if !p.prevLT {
+			p.next()
+		} else {
+			// a semicolon on a next line still ends a statement that is terminated by a semicolon, e.g. do a \n ; while (b)
+			switch stmt.(type) {
+			case *VarDecl, *ExprStmt, *DoWhileStmt, *BranchStmt, *ReturnStmt, *ThrowStmt, *DebuggerStmt, *ImportStmt, *ExportStmt, *DirectivePrologueStmt:
+				p.next()
+			}
+		}
 	}
 	p.stmtLevel--
 	return
